@@ -27,7 +27,49 @@ the whole group is killed) immediately BEFORE the j-th event of one class:
 Checked per case, on OUT only: if OUT exists after the kill and load_signatures(OUT) succeeds, it holds
 exactly the k-mer spec, signatures (harness's own naive_signature of the FASTA text), ids and metadata
 requested; a refusal or a missing file is fine.  A run whose kill point is never reached completes and
-must load as requested."""
+must load as requested.
+
+Dimension `pre` (kind `over_kill` for dump_signatures, field `pre` of `cli_kill` for the command) -- WHAT THE
+OUTPUT PATH HOLDS BEFORE THE WRITER STARTS.  The theorems take what is on disk before close as `junk` with the
+hypothesis `unparsable junk`; on a fresh path that is what libhdf5 leaves, on a path that already holds a file
+it is true only because the writer truncates the file when it opens it (mode 'w').  A writer that updates an
+existing HDF5 file in place leaves the OLD superblock and object headers (metadata is cached until close)
+pointing at raw data it has partly overwritten: a file that loads as the old collection or as a mixture.
+So the kill points are enumerated again with the path holding, before the write,
+  none        nothing (the fresh path of the streams above)
+  coll        the complete signature file of ANOTHER collection: fewer / as many / more signatures, integer /
+              string / default ids, other metadata, any container and filter, same or another k-mer spec
+  same        the complete file of the collection that is going to be written
+  truncated   a byte prefix of a signature file
+  raw         a non-HDF5 file (empty, text, FASTA, magic number + garbage, random bytes)
+  hdf         another kind of HDF5 file (unrelated content; ids/values/bounds without the marker; a signature
+              set in a sub-group; the marker without datasets)
+The writer runs in a forked child that counts its storage-library calls from the open of the file (File.__init__,
+attribute set/delete, create_dataset, create_group, dataset write, resize, delete, flush, File.__exit__) and dies
+(os._exit or SIGKILL) immediately before the j-th.  Judged exactly as the property says: once the writer HAS
+STARTED ON THE PATH (one of its completed calls opened that path for writing, or the bytes at the path are no
+longer those of the old file) what is at the path is absent, refused by load_signatures, or loads as exactly the
+REQUESTED collection -- the old collection, or a mixture of old and new, being accepted is the violation (an
+accepted file whose content cannot be read counts as a different collection).  A writer that died BEFORE it
+touched the path (old file byte-identical, no write-open completed) has left no partial file: counted, not
+judged.  A completed overwrite loads as requested.  Tie: after a kill the remains are not a readable HDF5 file
+(hypothesis `unparsable junk` of C19_atclose / C19_complete, reported as a broken obligation).
+
+Coverage (streams of generate; quick / thorough):
+  stream                              kind       writer            path before      kill points                     payload
+  every-boundary                      crash      dump_signatures   fresh            every boundary + completed      small, 35 / 135 collections
+  large-payload                       crash      dump_signatures   fresh            4 / every boundary              multi-megabyte
+  cli-kill-every-point                cli_kill   signatures create fresh            every calc + store point        small
+  cli-kill-random                     cli_kill   signatures create fresh            4 / 10 per command              small
+  overwrite-every-point               over_kill  dump_signatures   coll x3, same    every store point + completed   small, both write paths
+  overwrite-random                    over_kill  dump_signatures   all six forms    3 / 8 per collection            small
+  overwrite-large-payload             over_kill  dump_signatures   coll (smaller, equal, larger), multi-megabyte
+                                                                                    3 in the per-signature phase / every point
+                                                                                                                    multi-megabyte
+  cli-kill-overwrite-every-point      cli_kill   signatures create coll             every calc + store point        small
+  cli-kill-overwrite-random           cli_kill   signatures create all but none     3 per command                   small
+  corpus                              (runs first) cli kills during/after the calculation, the Eager witness, an overwrite of an
+                                      integer-id collection killed in the per-signature phase (dump_signatures and the command)"""
 import json
 import os
 import shutil
@@ -44,7 +86,14 @@ RULE = ('crash: (collection, boundary n) -> writer killed after n storage-librar
         '`gambit signatures create -o OUT` in a child process killed before the j-th calc event (before/during/after the '
         'signature calculation) or before the j-th storage-library call of the whole command -> OUT absent, refused by '
         'load_signatures, or loaded exactly as requested; non-trivial: >= 2 genomes with different non-empty signatures and '
-        'the kill came after the command entered the signature calculation or made a storage call (or the run completed)')
+        'the kill came after the command entered the signature calculation or made a storage call (or the run completed)'
+        ' | over_kill / cli_kill with pre: (what the output path holds before the write: nothing, the complete file of another '
+        'collection, of the same collection, a truncated signature file, a non-HDF5 file, another HDF5 file; collection; kill point) '
+        '-> dump_signatures(path) / `gambit signatures create -o path` in a child process killed before its j-th storage-library call '
+        '(counted from the open of the file) -> once the writer has started on the path (a completed call opened it for writing, or its '
+        'bytes changed) the path is absent, refused by load_signatures, or loads exactly as requested -- never as the old collection or a '
+        'mixture; a writer that died before touching the path is counted, not judged; non-trivial: the path held the complete file of '
+        'a different collection and the writer had started on it when it was killed (or completed)')
 TRUSTED = ['libhdf5 / OS durability: nothing parseable reaches the disk before close (policy AtClose of '
            'Model/Store.v) -- an assumption of the theorems, observed by this enumeration at every boundary',
            'h5py call interception in the child process (AttributeManager.__setitem__, Group.create_dataset, '
@@ -55,13 +104,19 @@ TRUSTED = ['libhdf5 / OS durability: nothing parseable reaches the disk before c
            'gambit.sigs.calc.calc_file_signatures, increment of the progress-meter classes, the h5py entry points) are installed '
            'by the harness inside the child only and observe, they do not change what the command does; the expected content is '
            'the harness\'s own naive_signature of the FASTA text it wrote (C06/C12 cli establish that the completed command '
-           'writes it)'] + c12.TRUSTED[:1]
+           'writes it)',
+           'over_kill / pre: the pre-existing signature files are written by the implementation\'s own dump_signatures to a FRESH path in '
+           'the harness process (the fresh-path round trip is C12\'s and the crash stream\'s subject); "the writer has started on the path" '
+           'is read off the completed h5py.File(path, mode != r) calls of the child and a byte comparison (SHA-1) of the path before '
+           'and after; the added h5py hooks (Group.__delitem__, AttributeManager.__delitem__, Group.create_group, Dataset.resize, '
+           'File.flush) only add kill points for writers that use them'] + c12.TRUSTED[:1]
 ASSUMPTIONS = ['the writer is killed between two storage-library calls (a kill inside libhdf5 while it writes raw '
                'chunk data is not enumerated)',
                'no explicit flush and no SWMR mode: HDF5Signatures.create / dump_signatures_hdf5 as in the repository',
-               'cli_kill: OUT does not exist before the command starts (an older file left in place by a writer that died before '
-               'touching OUT is not a partial file); kills are placed at calc events and storage-library call boundaries of the '
-               'command\'s main process, not at arbitrary instructions'] + c12.ASSUMPTIONS[:2]
+               'cli_kill / over_kill: an older file left in place, byte for byte, by a writer that died before touching the output path '
+               'is not a partial file (such kill points are counted, not judged); kills are placed at calc events and storage-library '
+               'call boundaries of the writer\'s main process, not at arbitrary instructions; the pre-existing contents are the six '
+               'forms listed in the module docstring (no symbolic links, no read-only or concurrently open files)'] + c12.ASSUMPTIONS[:2]
 BATCH = 40
 SHRINK = False
 
@@ -200,12 +255,7 @@ def k_crash(ctx, cases):
 			with open(path, 'rb') as f:
 				head = f.read(64)
 		cl = c12.classify_raw(path, head) if exists else 0
-		try:
-			with load_signatures(path) as s:
-				bad = c12.observe(s, coll)
-				got = ('ok', bad, [[int(v) for v in x] for x in s][:50])
-		except Exception as e:
-			got = ('err', c12.errname(e))
+		got = load_remains(load_signatures, path, coll, None, None, None)[0]
 		results.append((c, code, calls, cl, head, got))
 		c12._rm(path)
 	reqs = []
@@ -284,8 +334,24 @@ def k_crash(ctx, cases):
 				ctx.broke('correspondence crash (error class of the refusal)', f'impl {got} model repaired {mfix} / unrepaired {mcur}')
 
 
+_expanded = {}
+
+
 def expand(coll):
 	"""collections with a large payload are described by a seed (cases stay small and replayable)"""
+	if 'sigs_np' in coll:
+		# the same through NumPy's legacy generator (a fixed stream for a seed), memoised: [seed, number, max length, top]
+		import numpy as np
+		key = json.dumps(coll['sigs_np'])
+		if key not in _expanded:
+			if len(_expanded) >= 8:
+				_expanded.clear()
+			seed, nsig, per, top = coll['sigs_np']
+			r = np.random.RandomState(seed)
+			_expanded[key] = [np.unique(r.randint(0, top, size=r.randint(per // 2, per + 1))).tolist() for _ in range(nsig)]
+		out = {k: v for k, v in coll.items() if k != 'sigs_np'}
+		out['sigs'] = _expanded[key]
+		return out
 	if 'sigs_gen' not in coll:
 		return coll
 	import random
@@ -308,22 +374,13 @@ def _bounds(sigs):
 KILL_EXIT = 17
 
 
-def cli_child_main(args, at, kill, logfd):
-	"""runs in the forked child: install the counting hooks, run the click command, die before the j-th event of a class"""
-	import sys
-	import h5py
-	import gambit.cli
-	import gambit.sigs.calc as calc
-	import gambit.util.progress as gprog
-	os.setpgid(0, 0)
-	null = os.open(os.devnull, os.O_RDWR)
-	for fd in (0, 1, 2):
-		os.dup2(null, fd)
+def event_hooks(at, kill, logfd, classes):
+	"""the counting hooks of a forked writer: gate(cls) is called immediately before an event of class cls in the writer's main
+	process and kills it there when that is the chosen point `at` = [cls, j]; log(cls, what) records a completed event"""
 	main = os.getpid()
-	seen = {'calc': 0, 'store': 0}
+	seen = {c: 0 for c in classes}
 
 	def gate(cls):
-		"""called immediately before an event of class cls (main process of the command only)"""
 		if os.getpid() != main:
 			return False
 		if at is not None and at[0] == cls and seen[cls] == at[1]:
@@ -335,7 +392,7 @@ def cli_child_main(args, at, kill, logfd):
 		return True
 
 	def log(cls, what):
-		os.write(logfd, (json.dumps([cls, what]) + '\n').encode())
+		os.write(logfd, (json.dumps([cls] + (what if isinstance(what, list) else [what])) + '\n').encode())
 		seen[cls] += 1
 
 	def hooked(cls, what, fn):
@@ -346,6 +403,45 @@ def cli_child_main(args, at, kill, logfd):
 				log(cls, what if isinstance(what, str) else what(*a, **kw))
 			return r
 		return w
+
+	return gate, log, hooked
+
+
+def _opened(self, name, mode='r', *a, **kw):
+	"""label of a completed h5py.File(...): the mode and the path (h5py also makes File objects for handles it already has)"""
+	try:
+		p = os.fspath(name)
+	except TypeError:
+		return 'open-handle'
+	return [f'open {mode}', p.decode(errors='surrogateescape') if isinstance(p, bytes) else p]
+
+
+def install_store_hooks(hooked):
+	"""store events: the h5py entry points through which a writer changes a file (the unchanged code uses the first five)"""
+	import h5py
+	h5py.File.__init__ = hooked('store', _opened, h5py.File.__init__)
+	h5py.AttributeManager.__setitem__ = hooked('store', lambda self, name, value: f'attr {name}', h5py.AttributeManager.__setitem__)
+	h5py.Group.create_dataset = hooked('store', lambda self, name, *a, **kw: f'create {name}', h5py.Group.create_dataset)
+	h5py.Dataset.__setitem__ = hooked('store', lambda self, *a: f'write {self.name}', h5py.Dataset.__setitem__)
+	h5py.File.__exit__ = hooked('store', 'close', h5py.File.__exit__)
+	h5py.Group.__delitem__ = hooked('store', lambda self, name: f'delete {name}', h5py.Group.__delitem__)
+	h5py.AttributeManager.__delitem__ = hooked('store', lambda self, name: f'attr-delete {name}', h5py.AttributeManager.__delitem__)
+	h5py.Group.create_group = hooked('store', lambda self, name, *a, **kw: f'create-group {name}', h5py.Group.create_group)
+	h5py.Dataset.resize = hooked('store', lambda self, *a, **kw: f'resize {self.name}', h5py.Dataset.resize)
+	h5py.File.flush = hooked('store', 'flush', h5py.File.flush)
+
+
+def cli_child_main(args, at, kill, logfd):
+	"""runs in the forked child: install the counting hooks, run the click command, die before the j-th event of a class"""
+	import sys
+	import gambit.cli
+	import gambit.sigs.calc as calc
+	import gambit.util.progress as gprog
+	os.setpgid(0, 0)
+	null = os.open(os.devnull, os.O_RDWR)
+	for fd in (0, 1, 2):
+		os.dup2(null, fd)
+	gate, log, hooked = event_hooks(at, kill, logfd, ('calc', 'store'))
 
 	# calc events: entry / return of calc_file_signatures (every binding of the function in a gambit module) ...
 	real = calc.calc_file_signatures
@@ -367,12 +463,7 @@ def cli_child_main(args, at, kill, logfd):
 	for cls in [c for c in vars(gprog).values() if isinstance(c, type) and issubclass(c, gprog.AbstractProgressMeter)
 	            and 'increment' in vars(c) and not getattr(c.increment, '__isabstractmethod__', False)]:
 		cls.increment = hooked('calc', 'signature', cls.increment)
-	# store events
-	h5py.File.__init__ = hooked('store', lambda self, name, mode='r', *a, **kw: f'open {mode}', h5py.File.__init__)
-	h5py.AttributeManager.__setitem__ = hooked('store', lambda self, name, value: f'attr {name}', h5py.AttributeManager.__setitem__)
-	h5py.Group.create_dataset = hooked('store', lambda self, name, *a, **kw: f'create {name}', h5py.Group.create_dataset)
-	h5py.Dataset.__setitem__ = hooked('store', lambda self, *a: f'write {self.name}', h5py.Dataset.__setitem__)
-	h5py.File.__exit__ = hooked('store', 'close', h5py.File.__exit__)
+	install_store_hooks(hooked)
 	try:
 		gambit.cli.cli.main(args=args, prog_name='gambit', standalone_mode=False)
 	except SystemExit as e:
@@ -469,16 +560,34 @@ def k_cli_kill(ctx, cases):
 		try:
 			args, out, want = cli_setup(c, d)
 			at, kill = c.get('at'), c.get('kill', 'exit')
+			# what OUT holds before the command starts (see make_pre); `same` = the requested collection as a file
+			pre = c.get('pre') or dict(form='none')
+			same = dict(k=c['k'], prefix=c['prefix'], dtype=c12.index_dtype(c['k']), sigs=want['sigs'], container='annot_list', compression=None,
+			            ids=dict(kind='str', vals=want['ids'], **{'as': 'list'}), meta=want['meta'])
+			old = pre_coll(pre, same)
+			make_pre(out, pre, same)
+			before = path_state(out)
 			code, events = run_cli_writer(args, at, kill, os.path.join(d, 'events.log'))
-			exists = os.path.exists(out)
-			size = os.path.getsize(out) if exists else None
-			if exists:
+			after = path_state(out)
+			size = after[0] if after else None
+			note = None
+			if after is not None:
 				try:
-					with load_signatures(out) as s:
-						got = ('ok', dict(kspec=[int(s.kmerspec.k), s.kmerspec.prefix_str], sigs=[[int(v) for v in x] for x in s],
-						                  ids=[x if isinstance(x, str) else int(x) for x in s.ids], meta={f: getattr(s.meta, f) for f in want['meta']}))
+					s = load_signatures(out)
 				except Exception as e:
 					got = ('err', c12.errname(e))
+				else:
+					with s:
+						try:
+							got = ('ok', dict(kspec=[int(s.kmerspec.k), s.kmerspec.prefix_str], sigs=[[int(v) for v in x] for x in s],
+							                  ids=[x if isinstance(x, str) else int(x) for x in s.ids], meta={f: getattr(s.meta, f) for f in want['meta']}))
+						except Exception as e:
+							got = ('unreadable', f'load_signatures accepted the file, but reading the collection raises {c12.errname(e)}: {str(e)[:200]}')
+						if old is not None and (got[0] == 'unreadable' or cli_differences(got[1], want)):
+							try:
+								note = remains_note(s, old, before, after)
+							except Exception:
+								note = 'it is neither the requested nor the old collection (reading it raises)'
 			else:
 				got = ('absent',)
 		finally:
@@ -486,36 +595,252 @@ def k_cli_kill(ctx, cases):
 		killed = code == (-signal.SIGKILL if kill == 'sigkill' else KILL_EXIT)
 		done = [e for e in events if e[0] in ('calc', 'store')]
 		started = bool(done)
+		touched = writer_touched(events, out, before, after)
 		distinct = {tuple(x) for x in want['sigs'] if x}
-		ctx.case(c, nontrivial=len(distinct) >= 2 and (code == 0 or (killed and started)))
+		ctx.case(c, nontrivial=len(distinct) >= 2 and (code == 0 or (killed and started and (before is None or touched))))
 		trail = ', '.join(f'{e[0]}:{e[1]}' for e in done[-4:]) or 'nothing'
 		if events and events[-1][0] == 'EXC':
 			ctx.broke('fault injection cli_kill (the command raised in the child)', f'{events[-1]} at {at}: {c}')
 			continue
 		if code == 0:
 			# the kill point was never reached (at = null, or beyond the last event of its class): a completed write
-			if got[0] != 'ok':
+			if got[0] not in ('ok', 'unreadable'):
 				ctx.broke('cli_kill control (a completed `gambit signatures create` left no loadable file)', f'{got} after {len(done)} events: {c}')
 				continue
-			bad = cli_differences(got[1], want)
+			bad = [got[1]] if got[0] == 'unreadable' else cli_differences(got[1], want)
 			if bad:
-				ctx.violation('cli_kill', c, f'the file of a completed `gambit signatures create` loads, but not as what was requested: {"; ".join(bad)}',
-				              impl=got[1], spec=want)
+				ctx.violation('cli_kill', c, f'the file of a completed `gambit signatures create` (OUT held before: {pre["form"]}) loads, but not as what '
+				              f'was requested: {"; ".join(bad)}' + (f' -- {note}' if note else ''), impl=got[1], spec=want)
 			continue
 		if not killed or at is None:
 			ctx.broke('fault injection cli_kill', f'child exit {code} at {at} after [{trail}]: {c}')
 			continue
+		if before is not None and not touched:
+			# the command died before it touched OUT: what is there is the untouched older file, not a partial file
+			ctx.count('cli_kill:died-before-touching-OUT(not judged)')
+			continue
 		# ---- the property: what a killed writer leaves is absent, refused, or exactly what was requested
-		if got[0] == 'ok':
-			bad = cli_differences(got[1], want)
+		if got[0] in ('ok', 'unreadable'):
+			bad = [got[1]] if got[0] == 'unreadable' else cli_differences(got[1], want)
 			if bad:
-				ctx.violation('cli_kill', c, f'`gambit signatures create` killed ({kill}) before {at[0]} event {at[1]} (completed before the kill: '
-				              f'{len(done)} events, last [{trail}]) left an output file ({size} bytes) that load_signatures ACCEPTS as a '
-				              f'different collection: {"; ".join(bad)}', impl=got[1], spec=dict(want, note='or absent / refused'),
-				              events=[f'{e[0]}:{e[1]}' for e in done])
+				ctx.violation('cli_kill', c, f'`gambit signatures create` (OUT held before: {pre["form"]}) killed ({kill}) before {at[0]} event {at[1]} '
+				              f'(completed before the kill: {len(done)} events, last [{trail}]) left an output file ({size} bytes) that '
+				              f'load_signatures ACCEPTS as a different collection: {"; ".join(bad)}' + (f' -- {note}' if note else ''),
+				              impl=got[1], spec=dict(want, note='or absent / refused'), events=[f'{e[0]}:{e[1]}' for e in done])
 
 
-KINDS = {'crash': k_crash, 'cli_kill': k_cli_kill}
+# ---- the output path already holds something (kind over_kill, dimension `pre` of cli_kill) -----------------------------
+
+RAW_FORMS = ('empty', 'text', 'fasta', 'magic_garbage', 'random')
+
+
+def raw_bytes(pre):
+	"""content of a non-HDF5 file, from the case alone"""
+	import random
+	r = random.Random(pre.get('seed', 0))
+	n = pre.get('size', 300)
+	what = pre['what']
+	if what == 'empty':
+		return b''
+	if what == 'text':
+		return ''.join(r.choice('signature file\n é漢') for _ in range(n)).encode()
+	if what == 'fasta':
+		return ('>c0 contig\n' + ''.join(r.choice('ACGT') for _ in range(n)) + '\n').encode()
+	if what == 'magic_garbage':
+		return c12.MAGIC + bytes(r.randrange(256) for _ in range(n))
+	return bytes(r.randrange(256) for _ in range(n))
+
+
+def pre_coll(pre, same):
+	"""the collection a complete pre-existing signature file holds (None: the path holds no complete signature file)"""
+	if pre['form'] == 'same':
+		return same
+	if pre['form'] == 'coll':
+		return expand(pre['coll'])
+	return None
+
+
+def make_pre(path, pre, same, cache=None):
+	"""puts at `path` what the output path holds BEFORE the writer starts:
+	  none       nothing
+	  coll       the complete signature file of another collection (written to a fresh path by the implementation's dump_signatures)
+	  same       the complete signature file of the collection that is going to be written
+	  truncated  the first keep/1000 of the bytes of such a file
+	  raw        a non-HDF5 file (RAW_FORMS)
+	  hdf        another kind of HDF5 file (root attributes / datasets / a sub-group as in c12.write_hdf)"""
+	from gambit.sigs import dump_signatures
+	form = pre['form']
+	if form == 'none':
+		return
+	key = json.dumps([pre, same if form == 'same' else None], sort_keys=True)
+	if cache is not None and key in cache:
+		shutil.copyfile(cache[key], path)
+		return
+	if form in ('coll', 'same', 'truncated'):
+		coll = same if form == 'same' else expand(pre['coll'])
+		dump_signatures(path, c12.build(coll), **({} if coll.get('compression') is None else dict(compression=coll['compression'])))
+		if form == 'truncated':
+			os.truncate(path, os.path.getsize(path) * pre['keep'] // 1000)
+	elif form == 'raw':
+		with open(path, 'wb') as f:
+			f.write(raw_bytes(pre))
+	elif form == 'hdf':
+		c12.write_hdf(path, pre)
+	else:
+		raise ValueError(form)
+	if cache is not None:
+		cache[key] = path + '.master'
+		shutil.copyfile(path, cache[key])
+
+
+def path_state(path):
+	"""None: nothing there; else (size, digest of the bytes)"""
+	import hashlib
+	if not os.path.lexists(path):
+		return None
+	h = hashlib.sha1()
+	with open(path, 'rb') as f:
+		for block in iter(lambda: f.read(1 << 20), b''):
+			h.update(block)
+	return [os.path.getsize(path), h.hexdigest()]
+
+
+def writer_touched(events, path, before, after):
+	"""has the writer started on the output path?  yes if one of its completed storage calls opened that path for writing, or if
+	what is at the path is no longer byte-identical to what was there before the writer started"""
+	if before != after:
+		return True
+	real = os.path.realpath(path)
+	return any(e[0] == 'store' and len(e) > 2 and e[1].startswith('open ') and e[1] != 'open r' and os.path.realpath(e[2]) == real
+	           for e in events)
+
+
+def remains_note(s, old, before, after):
+	"""for the message of a violation: is what loads the OLD collection, or something else"""
+	if old is None:
+		return 'the path held no complete signature file before'
+	same_bytes = 'the bytes at the path are unchanged' if before == after else 'the bytes at the path have changed'
+	if not c12.observe(s, old):
+		return f'it is exactly the OLD collection that was at the path before ({same_bytes})'
+	return f'it is neither the requested nor the old collection: a mixture ({same_bytes})'
+
+
+def load_remains(load_signatures, path, coll, old, before, after):
+	"""-> (('err', class) | ('ok', differences from the requested collection, first values), note).  A file is ACCEPTED when
+	load_signatures returns; an accepted file whose signatures, ids or metadata then cannot be read is a different collection"""
+	try:
+		s = load_signatures(path)
+	except Exception as e:
+		return ('err', c12.errname(e)), None
+	with s:
+		note = None
+		try:
+			bad = c12.observe(s, coll)
+			first = [[int(v) for v in x[:50]] for x in s][:20]
+		except Exception as e:
+			bad, first = [f'load_signatures accepted the file, but reading the collection raises {c12.errname(e)}: {str(e)[:200]}'], None
+		if bad:
+			try:
+				note = remains_note(s, old, before, after)
+			except Exception:
+				note = 'it is neither the requested nor the old collection (reading it raises)'
+		return ('ok', bad, first), note
+
+
+def over_child_main(coll, path, at, kill, logfd):
+	"""runs in the forked child: count the storage-library calls of one dump_signatures(path, x), die before the j-th"""
+	from gambit.sigs import dump_signatures
+	gate, log, hooked = event_hooks(at, kill, logfd, ('store',))
+	install_store_hooks(hooked)
+	obj = c12.build(coll)
+	dump_signatures(path, obj, **({} if coll.get('compression') is None else dict(compression=coll['compression'])))
+	os._exit(0)
+
+
+def run_over_writer(coll, path, at, kill):
+	logpath = path + '.log'
+	logfd = os.open(logpath, os.O_WRONLY | os.O_CREAT | os.O_TRUNC, 0o600)
+	pid = os.fork()
+	if pid == 0:
+		try:
+			over_child_main(coll, path, at, kill, logfd)
+		except BaseException as e:
+			try:
+				os.write(logfd, (json.dumps(['EXC', repr(e)]) + '\n').encode())
+			finally:
+				os._exit(3)
+		os._exit(4)
+	os.close(logfd)
+	_, st = os.waitpid(pid, 0)
+	with open(logpath) as f:
+		events = [json.loads(l) for l in f if l.strip()]
+	os.unlink(logpath)
+	return os.waitstatus_to_exitcode(st), events
+
+
+def k_over_kill(ctx, cases):
+	from gambit.sigs import load_signatures
+	cache = {}
+	try:
+		for c in cases:
+			coll, pre = expand(c['coll']), c.get('pre') or dict(form='none')
+			at, kill = c.get('at'), c.get('kill', 'exit')
+			old = pre_coll(pre, coll)
+			path = c12.tmp('ov') + '.gs'
+			make_pre(path, pre, coll, cache)
+			before = path_state(path)
+			code, events = run_over_writer(coll, path, None if at is None else ['store', at], kill)
+			after = path_state(path)
+			killed = code == (-signal.SIGKILL if kill == 'sigkill' else KILL_EXIT)
+			touched = writer_touched(events, path, before, after)
+			note = None
+			if after is None:
+				got = ('absent',)
+			elif killed and not touched:
+				got = ('untouched',)   # not judged below, not loaded
+			else:
+				with open(path, 'rb') as f:
+					head = f.read(64)
+				cl = c12.classify_raw(path, head)
+				got, note = load_remains(load_signatures, path, coll, old, before, after)
+			c12._rm(path)
+			differs = old is not None and pre['form'] == 'coll' and c12.mcoll(old) != c12.mcoll(coll)
+			ctx.case(c, nontrivial=differs and (code == 0 or (killed and touched)))
+			done = [e for e in events if e[0] == 'store']
+			trail = ', '.join(e[1] for e in done[-4:]) or 'nothing'
+			if events and events[-1][0] == 'EXC':
+				ctx.broke('fault injection over_kill (the writer raised in the child)', f'{events[-1]} at {at}: {c}')
+				continue
+			if code == 0:
+				# at = null, or a point beyond the last storage call: a completed write over whatever was there
+				if got[0] != 'ok' or got[1]:
+					ctx.violation('over_kill', c, f'a completed dump_signatures over a pre-existing file ({pre["form"]}) does not load as what was '
+					              f'written: {"; ".join(got[1][:3]) if got[0] == "ok" else got}' + (f' -- {note}' if note else ''),
+					              impl=got, spec='loads as the written collection')
+				continue
+			if not killed or at is None:
+				ctx.broke('fault injection over_kill', f'child exit {code} at {at} after [{trail}]: {c}')
+				continue
+			if not touched:
+				# the writer died before it touched the output path: what is there is the untouched older file, not a partial file
+				ctx.count('over_kill:died-before-touching-the-path(not judged)')
+				continue
+			# ---- the property: what a killed writer leaves at the path is absent, refused, or exactly what was being written
+			if got[0] == 'ok' and got[1]:
+				ctx.violation('over_kill', c, f'dump_signatures over a pre-existing file ({pre["form"]}) killed ({kill}) before storage call {at} '
+				              f'(completed: {len(done)} calls, last [{trail}]) left a file that load_signatures ACCEPTS and that is not the '
+				              f'collection being written: {"; ".join(got[1][:3])} -- {note}', impl=got[2], spec='refused, absent, or exactly the written collection',
+				              events=[' '.join(e[1:2]) for e in done])
+				continue
+			if got[0] == 'err' and cl is None:
+				ctx.broke('durability assumption AtClose (hypothesis `unparsable junk` of C19_atclose / C19_complete)',
+				          f'writer over a pre-existing file ({pre["form"]}) killed before storage call {at} left a readable HDF5 file (refused later: {got}): {c}')
+	finally:
+		for m in cache.values():
+			c12._rm(m)
+
+
+KINDS = {'crash': k_crash, 'cli_kill': k_cli_kill, 'over_kill': k_over_kill}
 
 
 def n_calls(coll):
@@ -564,6 +889,121 @@ def generate(ctx):
 			ctx.count('stream:large-payload')
 			yield 'crash', dict(coll=coll, n=n, short=True)
 	yield from gen_cli_kill(ctx, rng)
+	yield from gen_over_kill(ctx, rng)
+	yield from gen_cli_over(ctx, rng)
+
+
+# ---- what the output path holds before the write ----------------------------------------------------------------------
+
+def rpre(rng, k, prefix, dtype, n, weights=(4, 40, 10, 16, 15, 15)):
+	"""a random pre-existing content of the output path: none / another collection (smaller, equal-sized, larger; int, str or
+	default ids; any container and filter; same or another k-mer spec) / the same collection / a truncated signature file /
+	a non-HDF5 file / another kind of HDF5 file"""
+	form = rng.choices(('none', 'coll', 'same', 'truncated', 'raw', 'hdf'), weights)[0]
+	if form in ('none', 'same'):
+		return dict(form=form)
+	if form in ('coll', 'truncated'):
+		m = rng.choice([max(1, n - rng.randint(1, 3)), n, n, n + rng.randint(1, 4)])
+		if rng.random() < 0.25:
+			k, prefix, dtype = rng.choice([(5, 'AT', 'u2'), (11, 'ATGAC', 'u4'), (17, 'A', 'u8')])
+		coll = dict(k=k, prefix=prefix, dtype=dtype, sigs=[c12.rsig(rng, k, 12, dtype) for _ in range(m)], container=rng.choice(c12.CONTAINERS),
+		            compression=rng.choice(c12.COMPRESSIONS), ids=c12.rids(rng, m), meta=c12.rmeta(rng))
+		return dict(form='coll', coll=coll) if form == 'coll' else dict(form='truncated', coll=coll, keep=rng.choice([0, 1, 8, 500, 900, 999]))
+	if form == 'raw':
+		return dict(form='raw', what=rng.choice(RAW_FORMS), seed=rng.randrange(1000), size=rng.choice([1, 8, 300, 5000]))
+	ints = lambda m, dt='i8': dict(ints=[rng.randrange(100) for _ in range(m)], dtype=dt)
+	return dict(form='hdf', **rng.choice([
+		dict(attrs={'title': 'table'}, dsets={'data': ints(20)}),                                                     # unrelated content
+		dict(attrs={}, dsets={'ids': ints(n), 'values': ints(3 * n, dtype), 'bounds': ints(n + 1)}),             # the three datasets, no marker
+		dict(attrs={'kmerspec_k': k, 'kmerspec_prefix': prefix}, dsets={'ids': dict(strs=[f'x{i}' for i in range(n)])}),
+		dict(subgroup=True, attrs={'gambit_signatures_version': 1, 'kmerspec_k': k, 'kmerspec_prefix': prefix},
+		     dsets={'ids': ints(2), 'values': ints(4, dtype), 'bounds': dict(ints=[0, 2, 4])}),                          # a signature set in a sub-group
+		dict(attrs={'gambit_signatures_version': 1, 'kmerspec_k': k, 'kmerspec_prefix': prefix}, dsets={})]))           # marker, no datasets
+
+
+def over_points(coll, slack):
+	"""every kill point of one dump_signatures: before the open (0, the writer has not touched the path), before each of the
+	storage calls of the write, before / inside the close (3 File objects h5py makes for open handles); `slack` more for whatever
+	else a writer does; points beyond the last call are completed writes"""
+	return list(range(0, 1 + n_calls(coll) + 4 + slack)) + [None]
+
+
+def gen_over_kill(ctx, rng):
+	metaA = dict(id='setA', name='Set A', id_attr=None, version='1.0', description=None, extra={'made': 'before'})
+	metaB = dict(id='setB', name='é漢 B', id_attr='key', version='2.0', description='two\nlines', extra={'a': [1, {'b': None}]})
+	base = dict(k=9, prefix='ACG', dtype='u4')
+	sigs = [sorted(rng.sample(range(4 ** 9), rng.choice([0, 1, 3, 9]))) for _ in range(4)] + [[7], [2, 3]]
+	rs = lambda m, ln=None: [sorted(rng.sample(range(4 ** 9), rng.randint(1, 9) if ln is None else ln[i])) for i in range(m)]
+	# ---- every kill point of an overwrite, both write paths x what was there: a smaller / equal-sized / larger collection
+	# (integer, string and default ids; annotated and plain containers), the same collection
+	news = [dict(base, sigs=sigs, container='annot_array', compression=None, ids=dict(kind='str', vals=[f'new{i}' for i in range(6)], **{'as': 'list'}), meta=metaB),
+	        dict(base, sigs=sigs, container='annot_list', compression='gzip', ids=dict(kind='int', dtype='i8', vals=[200 + i for i in range(6)]), meta=metaB)]
+	pres = [dict(form='coll', coll=dict(base, sigs=rs(3), container='annot_list', compression=None, ids=dict(kind='int', dtype='i8', vals=[100, 101, 102]), meta=metaA)),
+	        dict(form='coll', coll=dict(base, sigs=rs(6, [len(x) for x in sigs]), container='annot_array', compression=None,
+	                                    ids=dict(kind='str', vals=[f'old{i}' for i in range(6)], **{'as': 'list'}), meta=metaA)),
+	        dict(form='coll', coll=dict(base, sigs=rs(9), container='list', compression='lzf', ids=None, meta=None)),
+	        dict(form='same')]
+	for new in news:
+		for pre in pres:
+			for at in over_points(new, ctx.pick(2, 12)):
+				ctx.count('stream:overwrite-every-point')
+				yield 'over_kill', dict(pre=pre, coll=new, at=at, kill='exit')
+	ctx.extra['exhaustive_scope'] += ('; over_kill: for two collections (both write paths) written over a smaller / equal-sized / larger other '
+	                                 'collection and over the same collection: every kill point between two storage-library calls of '
+	                                 'dump_signatures from before the open to inside the close')
+	# ---- random collections over random pre-existing contents (all six forms), a few kill points each
+	for _ in range(ctx.pick(16, 200)):
+		n = rng.randint(1, 8)
+		new = dict(base, sigs=[c12.rsig(rng, 9, 12, 'u4') for _ in range(n)], container=rng.choice(c12.CONTAINERS),
+		           compression=rng.choice(c12.COMPRESSIONS), ids=c12.rids(rng, n), meta=c12.rmeta(rng))
+		pre = rpre(rng, 9, 'ACG', 'u4', n)
+		pts = over_points(new, 0)
+		for at in [rng.randint(1, n_calls(new)), n_calls(new)] + rng.sample(pts, ctx.pick(1, 6)):
+			ctx.count('stream:overwrite-random')
+			yield 'over_kill', dict(pre=pre, coll=new, at=at, kill=rng.choice(['exit', 'sigkill']))
+	# ---- multi-megabyte payloads over multi-megabyte files (raw data goes to the disk at once, metadata at close): the old file
+	# is smaller / about as large / larger; kill points in the per-signature phase (thorough: every point, both paths)
+	nsig, per = 12, 120000
+	for cont in (('list',) if ctx.quick else ('list', 'annot_array')):
+		new = dict(k=11, prefix='ATGAC', dtype='u4', sigs_np=[rng.randrange(2 ** 30), nsig, per, 4 ** 11], container=cont, compression=None,
+		           ids=None if cont == 'list' else dict(kind='int', dtype='i8', vals=[200 + i for i in range(nsig)]), meta=None if cont == 'list' else metaB)
+		total = 1 + (12 if cont == 'annot_array' else 14 + nsig)
+		for m in (6, 12, 18):
+			pre = dict(form='coll', coll=dict(k=11, prefix='ATGAC', dtype='u4', sigs_np=[rng.randrange(2 ** 30), m, per, 4 ** 11], container='annot_list',
+			                                 compression=None, ids=dict(kind='int', dtype='i8', vals=[100 + i for i in range(m)]), meta=metaA))
+			for at in ([total - nsig + 1, total - nsig // 2, total] if ctx.quick else list(range(0, total + 5)) + [None]):
+				ctx.count('stream:overwrite-large-payload')
+				yield 'over_kill', dict(pre=pre, coll=new, at=at, kill='sigkill')
+
+
+def gen_cli_over(ctx, rng):
+	"""`gambit signatures create -o OUT` where OUT already holds something"""
+	metaA = dict(id='setA', name='Set A', id_attr=None, version='1.0', description=None, extra={'made': 'before'})
+	metaB = dict(id='db/é', name='漢 set', version='2.0', id_attr='key', description='two\nlines', extra={'author': 'x'})
+	# ---- every kill point of one command over the previous version of the set (other genomes, other ids, other metadata)
+	k, prefix, n = 7, 'AT', 3
+	base = dict(k=k, prefix=prefix, genomes=[rgenome(rng, prefix, k) for _ in range(n)], ids=['n-0', 'n-1', 'n-2'], meta=metaB, cores=1, progress=False,
+	            via='args', kill='sigkill', width=60)
+	oldsigs = [c12.naive_signature(k, prefix, rgenome(rng, prefix, k)) for _ in range(rng.choice([2, 3, 5]))]
+	pre = dict(form='coll', coll=dict(k=k, prefix=prefix, dtype='u2', sigs=oldsigs, container='annot_list', compression=None,
+	                                 ids=dict(kind='str', vals=[f'old-{i}' for i in range(len(oldsigs))], **{'as': 'list'}), meta=metaA))
+	for at in cli_points(n, ctx.pick(3, 20)):
+		ctx.count('stream:cli-kill-overwrite-every-point')
+		yield 'cli_kill', dict(base, pre=pre, at=at)
+	ctx.extra['exhaustive_scope'] += '; cli_kill: every kill point of one command whose OUT already holds the complete file of another collection'
+	# ---- random commands over random pre-existing contents
+	for _ in range(ctx.pick(8, 100)):
+		k = rng.choice([5, 6, 8, 9, 11, 12, 16])
+		prefix = ''.join(rng.choice('ACGT') for _ in range(rng.randint(2, 4)))
+		n = rng.randint(1, 4)
+		base = dict(k=k, prefix=prefix, genomes=[rgenome(rng, prefix, k) for _ in range(n)],
+		            ids=None if rng.random() < 0.4 else [f'{rng.choice(["id", "é", "G"])}{i}' for i in range(n)],
+		            meta=None if rng.random() < 0.4 else dict(id=c12.rstr(rng), name='n', version='1.0', id_attr='key', description=c12.rstr(rng), extra={'n': [1, None]}),
+		            cores=rng.choice([1, 2]), progress=rng.random() < 0.5, via=rng.choice(['args', 'listfile']), kill=rng.choice(['exit', 'sigkill']),
+		            width=rng.choice([None, 70]), pre=rpre(rng, k, prefix, c12.index_dtype(k), n, weights=(0, 50, 10, 14, 13, 13)))
+		for at in [['calc', n + 1], ['store', rng.randint(1, 14 + n)], rng.choice(cli_points(n, 0))]:
+			ctx.count('stream:cli-kill-overwrite-random')
+			yield 'cli_kill', dict(base, at=at)
 
 
 def rgenome(rng, prefix, k):
